@@ -182,6 +182,47 @@ def rsa_mixed_batch(rng, size, slow_budget=1, kinds=None, with_healthy=True):
   return arts
 
 
+_NEIGHBOURS = []
+
+
+def rsa_neighbours(ctx):
+  """Three healthy moduli of mixed sizes (a small one first): the batch
+  neighbours of the detection checks, which must judge every key by itself."""
+  if not _NEIGHBOURS:
+    r = ctx.rng('healthy-neighbours')
+    _NEIGHBOURS.extend(rsagen.healthy(r, b)[0] for b in (256, 1024, 512))
+  return _NEIGHBOURS
+
+
+def rsa_in_batch(ctx, n):
+  """(batch, key): the modulus at a varying position among the neighbours."""
+  hs = rsa_neighbours(ctx)
+  key = gen.rsa_key(n)
+  pos = ctx.counters.get('evaluations', 0) % 4
+  ctx.count('batch_position:%d' % pos)
+  return [gen.rsa_key(h) for h in hs[:pos]] + [key] + [
+      gen.rsa_key(h) for h in hs[pos:pos + 1]], key
+
+
+def rsa_decoy_instances(ctx):
+  """Builds and uses instances of every parametrised RSA check with unusual
+  constructor arguments (and the registry's instances) before the instance
+  under observation exists: constructor state must not be shared."""
+  from paranoid_crypto.lib import paranoid
+  from paranoid_crypto.lib import rsa_aggregate_checks as ra
+  from paranoid_crypto.lib import rsa_single_checks as rs
+  r = ctx.rng('decoys')
+  tiny = [gen.rsa_key(rsagen.healthy(r, 256)[0])]
+  decoys = [rs.CheckFermat(max_steps=1), rs.CheckBitPatterns(pattern_sizes=[2]),
+            rs.CheckContinuedFractions(bound=2), rs.CheckPollardpm1(bound=2 ** 10),
+            ra.CheckGCDN1(gcd_bound=2)]
+  dict(paranoid.GetRSAAllChecks())
+  for d in decoys:
+    d.Check([type(k)().FromString(k.SerializeToString()) for k in tiny] * 2)
+  ctx.count('decoy_instances_built', len(decoys))
+  return decoys
+
+
 def rsa_keys(arts, pad=0):
   return [gen.rsa_key(a['n'], a['e'], pad=pad) for a in arts]
 
